@@ -402,6 +402,11 @@ func (m *manager) updateValidationStatus(ctx context.Context, chid datatransfer.
 
 	// dispatch channel events and generate a response message
 	chst, response, err := m.processValidationUpdate(ctx, chid, result)
+	if chst == nil {
+		// no channel state was obtained (unknown or already terminated channel):
+		// there is nothing to dispatch to the transport
+		return err
+	}
 
 	// dispatch transport updates
 	return m.handleTransportUpdate(ctx, chst, response, result, err)
